@@ -23,7 +23,8 @@ def seeds_for(pid=None):
     for meta in sorted((VERIF / "seeded").glob("*/meta.json")):
         m = json.loads(meta.read_text())
         if pid is None or m.get("breaks_property") == pid:
-            out.append((m, meta.parent / "patch.diff"))
+            rebased = meta.parent / "patch_current_tree.diff"  # the same change re-based onto the tree after later fix commits
+            out.append((m, rebased if rebased.exists() else meta.parent / "patch.diff"))
     return out
 
 
